@@ -745,26 +745,26 @@ func (l *lexer) lexHeredoc() action {
 func (l *lexer) scanHeredoc() bool {
 	find := func(r *ast.Redir, delim string) bool {
 		for i := len(l.word) - 1; i >= 0; i-- {
-			if l.word[i].Pos().Col() == 1 {
-				if i > 0 {
-					if w, ok := l.word[i-1].(*ast.Lit); !ok || !strings.HasSuffix(w.Value, "\n") {
-						// continues the previous line
-						continue
-					}
+			// (the positions cannot tell where a line starts when the
+			// here-document comes out of the value of an alias)
+			if i > 0 {
+				if w, ok := l.word[i-1].(*ast.Lit); !ok || !strings.HasSuffix(w.Value, "\n") {
+					// continues the line
+					continue
 				}
-				s := l.print(l.word[i:])
-				if r.Op == "<<-" {
-					s = strings.TrimLeft(s, "\t")
-				}
-				if s == delim {
-					r.Heredoc = concat(l.word[:i])
-					r.Delim = l.word[i:]
-					l.word = nil
-					return true
-				}
-				// the line which ends here starts at this part
-				break
 			}
+			// the line which ends here starts at this part
+			s := l.print(l.word[i:])
+			if r.Op == "<<-" {
+				s = strings.TrimLeft(s, "\t")
+			}
+			if s == delim {
+				r.Heredoc = concat(l.word[:i])
+				r.Delim = l.word[i:]
+				l.word = nil
+				return true
+			}
+			break
 		}
 		return false
 	}
